@@ -138,6 +138,28 @@ def part_delta(rng, res, riders, i):
                               case={"f": f_int.data, "point": pidx, "form": form})
             else:
                 res.count("%s:ok" % lab)
+        # reducing over the Delta's variable and a batch input at once: logsumexp over the batch of f at the point; for the bare
+        # unit-mass Delta the log of the batch size
+        both = [("delta-reduce-both", lambda: (dp + f_int).reduce(ops.logaddexp, frozenset(["v", "b"])), float(scipy.special.logsumexp(want)))]
+        if "b" in dp.inputs:
+            both.append(("delta-reduce-both", lambda: dp.reduce(ops.logaddexp, frozenset(["v", "b"])), math.log(bsz)))
+        for lab2, thunk2, target in both:
+            try:
+                r2 = funsor.to_funsor(thunk2())
+            except Exception as e:
+                res.count("%s:declined:%s" % (lab2, type(e).__name__))
+                continue
+            if r2.inputs:
+                if not isinstance(r2, (Tensor, Number)):
+                    res.count("%s:lazy" % lab2)
+                    continue
+                res.violation("delta:%s" % lab2, "reducing over {v, b} left inputs %s" % list(r2.inputs), case={"f": f_int.data, "point": pidx, "form": form})
+                continue
+            got2 = float(r2.data)
+            if not close(got2, target):
+                res.violation("delta:%s" % lab2, "reduce over {v, b} gives %s, expected %s" % (got2, target), case={"f": f_int.data, "point": pidx, "form": form})
+            else:
+                res.count("%s:ok" % lab2)
         # a weighted point mass (the form of a sample: Delta + log-weight) as measure: integrating over the Delta's variable only, and
         # over a batch / particle input as well, is the weighted evaluation at the point
         wdata = np.round(rng.uniform(-1, 1, size=(bsz,)), 2)
